@@ -33,6 +33,7 @@ func TestC03WellFormed(t *testing.T) {
 	rapid.Check(t, prop(r, func(t *rapid.T) {
 		o := docOpts
 		o.NoIncluded = true
+		o.MixedWrapCol = true
 		c := gen.Document(t, o)
 
 		labels := docLabels(c)
